@@ -1,6 +1,6 @@
 //! C06 — MVReg read returns exactly the causally-maximal writes.
-use super::c04::model_check;
 use super::common::*;
+use super::generic::*;
 use crate::engine::*;
 use crate::plan::*;
 use crate::sim::*;
@@ -36,12 +36,12 @@ pub fn property() -> Property {
     ];
     for (label, disc, w, q, t) in variants {
         let pc = PlanCfg::new(w).steps(4, 28);
-        let mut cfg = RunCfg::new(disc);
-        cfg.newest_first = disc == Disc::Any;
+        let mut ctx = Ctx::new(disc);
+        ctx.cfg.newest_first = disc == Disc::Any;
         jobs.push(
             job(label, q, t, { let pc = pc.clone(); move || plan_strategy(&pc) }, move |p: &Plan, st: &mut Stats| {
                 // late-dominated class: counted from the model
-                model_check::<SMVReg>(p, &cfg, st, &nontrivial, "MVReg read differs from the causally-maximal-writes specification")
+                check_model::<SMVReg>(p, &ctx, st, &nontrivial, "MVReg read differs from the causally-maximal-writes specification")
             })
             .decoder({ let pc = pc.clone(); move |d: &[u8]| decode_plan(&pc, d) })
             .floor("nontrivial", 0.03)
